@@ -196,6 +196,11 @@ def decorate(body, name):
         Sb1.ctx = BoolVal(True)
         bc = type(c)(**{**c.__dict__, 'S0': Sb0, 'S1': Sb1, 'S': Sb1})
         out = [(nm, Implies(g0, cl)) for nm, cl in body.post(bc) if nm != 'flags-kept']
+        # ASSUMED when a reordering fires inside a top-level call (consequence of the assumed contract of reorder() and of the
+        # re-execution of the body; C07/C09 bounded): the manager is well formed and the result is a node of it
+        out += [('WF[assumed-if-reordering-fired]:' + nm, Implies(Not(g0), cl)) for nm, cl in wf(S1, c.uses)]
+        if body.ret == 'int':
+            out.append(('result-is-a-node[assumed-if-reordering-fired]', Implies(Not(g0), isref(S1, c.r))))
         out += [('frame', Implies(g0, M.keep(S0, S1, frame))),
                 ('ctx-kept', S1.ctx == S0.ctx), ('enc-lastlen', S1.lastlen >= -1),
                 ('lastlen-kept-if-quiet', Implies(g0, S1.lastlen == S0.lastlen)),
@@ -209,7 +214,8 @@ def decorate(body, name):
         else:
             raises[exc] = rs
     d = Contract(name, body.params, pre, post, modifies=M.ALLF, ret=body.ret, raises=raises, uses=body.uses,
-                 mutates=body.mutates, note=f'composition of dd.bdd._try_to_reorder._wrapper with {body.name}')
+                 mutates=body.mutates, note=f'composition of dd.bdd._try_to_reorder._wrapper with {body.name}; when a reordering fires '
+                 'inside a top-level call, WF and validity of the result are ASSUMED (reorder() contract, C07/C09 bounded)')
     d.decorated_body = body.name
     return d
 
@@ -325,6 +331,9 @@ def apply_post(c):
     else:
         want = spec_connective(cls, semr(S0, a.u), semr(S0, a.v), semr(S0, a.w))
     out = [(nm, Implies(g0, cl)) for nm, cl in wf(S1, c.uses)]
+    # ASSUMED when a reordering fires inside the call (reorder() contract, C07/C09 bounded): still WF, result is a node
+    out += [('WF[assumed-if-reordering-fired]:' + nm, Implies(Not(g0), cl)) for nm, cl in wf(S1, c.uses)]
+    out.append(('result-is-a-node[assumed-if-reordering-fired]', Implies(Not(g0), isref(S1, r))))
     out += [('connective', Implies(g0, And(isref(S1, r), semr(S1, r) == want))),
             ('Ext', Implies(g0, Ext(S0, S1, c.uses))),
             ('ctx-kept', S1.ctx == S0.ctx),
